@@ -3,6 +3,7 @@ import CwMt.Driver.Wasm
 import CwMt.Driver.Bank
 import CwMt.Driver.Addr
 import CwMt.Driver.Route
+import CwMt.Driver.Staking
 /-
   cwmt-driver <slice> : reads ops lines on stdin, answers one line per op on stdout.
   `case <id>` resets the slice state and is echoed.
@@ -17,6 +18,7 @@ structure Slice where
 def slices : List (String × Slice) :=
   [ ("overlay", { σ := Stack, init := .root [], step := stepOverlay }),
     ("views", { σ := Store Val, init := [], step := stepViews }),
+    ("staking", { σ := Stk.StkState, init := Stk.StkState.init, step := Stk.stepStaking }),
     ("route", { σ := RouteDrv.RouteState, init := {}, step := RouteDrv.stepRoute }),
     ("addr", { σ := Unit, init := (), step := stepAddr }),
     ("bank", { σ := BankSt, init := {}, step := stepBank }),
